@@ -173,6 +173,11 @@ def run_check(check: Check, tier: str, replay: Optional[str] = None) -> int:
                 discharged += 1
     else:
         obligations = len(check.theorems)
+    rechecked: List[str] = []
+    if tier == "thorough" and proofs_ok and check.lean_modules:
+        ok, out, rechecked = C.leanchecker(check.lean_modules)
+        if not ok:
+            broken.append("leanchecker rejects a compiled module: " + out[-800:])
 
     # 3. cases -----------------------------------------------------------------------------------
     n = check.quick_n if tier == "quick" else check.thorough_n
@@ -372,7 +377,8 @@ def run_check(check: Check, tier: str, replay: Optional[str] = None) -> int:
     coverage = {
         "obligations": obligations,
         "discharged": discharged if proofs_ok else 0,
-        "checker_cmd": "cd lean && lake build pdriver " + " ".join(check.lean_modules) + " && lake env lean <#print axioms …>" + ("; lake env leanchecker" if tier == "thorough" else ""),
+        "checker_cmd": "cd lean && lake build pdriver " + " ".join(check.lean_modules) + " && lake env lean <#print axioms …>" + ("; lake env leanchecker " + " ".join(rechecked) if rechecked else ""),
+        "leanchecker_modules": rechecked,
         "trusted_base": check.trusted_base,
         "theorems": {t: axioms.get(t) for t in check.theorems},
         "evaluations": len(cases),
